@@ -167,6 +167,7 @@ func cmdCheck(args []string) int {
 		fmt.Fprintln(os.Stderr, "infrastructure error: no configuration for property", *prop)
 		return 2
 	}
+	currentProperty = *prop
 	var ov map[string][]byte
 	for _, o := range overlays {
 		i := strings.Index(o, "=")
